@@ -1545,8 +1545,11 @@ class C09(HistProp):
             "only that field; every other record, their order, header fields and EDNS data stay equal; the observations of each walk (which "
             "record a cursor designates before and after each action) must match the abstract walk. Non-trivial/distinct as C08.")
     strength = ("PARTIAL: proved lemmas: C09_insert_appends (bytes after a successful insert = bytes before with the record spliced at the "
-                "end of the section, one count incremented), C09_set_ttl_frame (only 4 bytes change). The refinement of every operation to "
-                "the abstract message operations (C09_full_statement) is decided each run by the correspondence and the abstract-effect oracle.")
+                "end of the section, one count incremented), C09_set_ttl_frame (only 4 bytes change), C09_set_ttl_effect (on a section that reads "
+                "declaratively as records l, after set_rr_ttl t on the k-th cursor the section walk returns the views of l with the k-th TTL "
+                "replaced by t and nothing else changed, PROVIDED no owner name of the section is read through the 4 bytes written; "
+                "C09_set_ttl_without_it_refuted shows the proviso is necessary - known finding data-pointer). The refinement of the other "
+                "operations to the abstract message operations is decided each run by the correspondence and the abstract-effect oracle.")
 
     def gen(self, rng, tier):
         n = 500 if tier == "quick" else 12000
